@@ -202,6 +202,8 @@ def gen_pred(rng):
     p = rng.choice(sorted(PREDS))
     x = gen_ctor(rng, malformed=False)
     pc = {"pred": p, "x": x, "seed": rng.randint(0, 1 << 30)}
+    if p == "all_ge_zero" and rng.random() < 0.6:
+        pc["kw"] = {"threshold": float(rng.choice([0.0, 0.5, 2.0, 40.0]))}
     if p in BINARY:
         r = rng.random()
         if r < 0.8:
@@ -417,7 +419,10 @@ def pred_term(pc, r, flags):
     else:
         e = f"(PVal {cbool(v)})"
     Y = coq_food(y) if y is not None else coq_food(x)
-    return f"check_pred {cbool(flags[0])} {cbool(flags[1])} {PREDS[pc['pred']]} {coq_food(x)} {Y} {e}"
+    pname = PREDS[pc["pred"]]
+    if pc.get("kw", {}).get("threshold") is not None:
+        pname = f"(PAllGeZeroThr {fq(pc['kw']['threshold'])})"
+    return f"check_pred {cbool(flags[0])} {cbool(flags[1])} {pname} {coq_food(x)} {Y} {e}"
 
 
 # ------------------------------------------------------------------ correspondence
